@@ -28,6 +28,10 @@ class Mappers:
         self.pool = pool
 
     def ser(self, node, data):
+        # a user mapper is defined on the nodes of the tree; the invisible system root (its data is the tree's name)
+        # is not one of them: a mapper written for the tree's data flavour would fail on it
+        if node.is_system_root():
+            raise AssertionError("the serialization mapper was called for the invisible system root")
         o = node.data
         if isinstance(o, str):
             return None
@@ -156,7 +160,7 @@ def random_label_spec(rng, n, labels, typed, explicit=0.2, clone_rate=0.4):
             if did is not None:
                 d["did"] = did
             if typed:
-                d["k"] = rng.choice(["a", "b"])
+                d["k"] = rng.choice(["a", "b", "a", "b", "c", "d"])    # one data object under three or more kinds occurs
             key = did if did is not None else ("h", lab)
             if key in used:
                 continue
